@@ -184,6 +184,21 @@ def cexB : Case :=
     ops := [.promptEnter (.re (.rep (.cls false [(120, 120)]) 3 3)), .streamEnter 0 false, .read none (some 1),
             .setPrompt (some [120]), .streamExit, .streamEnter 1 false, .read none (some 1), .streamExit] }
 
+/-- (C) a per-call prompt: `read_until_prompt(prompt=<regex of width 5>)` inside a suppressing
+    attachment whose configured prompt is the literal `ab` holds back `world`; the call times out,
+    the literal prompt is back, the exit drops 2 bytes and `rld` leaks into the next attachment. -/
+def cexC : Case :=
+  { chunk := 100, slice := 100, accept := []
+    script := [⟨0, [104, 101, 108, 108, 111, 32, 119, 111, 114, 108, 100]⟩, ⟨5, [103, 104]⟩]
+    ops := [.setPrompt (some [97, 98]), .streamEnter 0 false,
+            .rup (some (.re (.rep (.cls false [(100, 100)]) 5 5))) (some 1), .streamExit,
+            .streamEnter 1 false, .read none (some 10), .streamExit] }
+
+theorem cexC_wf : WfCase cexC ∧ noNesting cexC.ops = true :=
+  ⟨⟨by decide, by decide, by decide, by decide⟩, by decide⟩
+
+theorem cexC_fails : Spec.C08 cexC (Chan.run cexC) = false := by decide +kernel
+
 theorem cexA_wf : WfCase cexA ∧ noNesting cexA.ops = true :=
   ⟨⟨by decide, by decide, by decide, by decide⟩, by decide⟩
 
